@@ -140,6 +140,39 @@ fn main() {
         run_verify(&mut sink, "honest-large", &leaves, &honest);
         mutate(&mut sink, &mut rng, &leaves, &honest);
     }
+    // several mutations at once on small trees (the single mutations above never combine a duplicated or out-of-range index
+    // with an altered leaf count, a short claim list or a re-ordered path): arbitrary index lists, claims, values, nr
+    let reps = if args.thorough() { 20_000 } else { 2_000 };
+    for _ in 0..reps {
+        let n = rng.range(1, 9) as usize;
+        let leaves: Vec<RawLeaf> = (0..n).map(|_| leaf(&mut rng)).collect();
+        let root = merkle_root(&leaves);
+        let mut pool: Vec<Vec<u8>> = vec![root.clone()];
+        for _ in 0..4 { let mut s: Vec<usize> = (0..n).filter(|_| rng.bool()).collect(); if s.is_empty() { s.push(0); } pool.extend(batch_path(&leaves, s).0); }
+        let len = rng.below(5) as usize;
+        let mut idx: Vec<usize> = (0..len).map(|_| rng.below(n as u64 + 2) as usize).collect();
+        if !rng.chance(1, 6) { idx.sort(); }
+        if rng.chance(1, 4) && !idx.is_empty() { let k = rng.below(idx.len() as u64) as usize; let v = idx[k]; idx.insert(k, v); }
+        if rng.chance(1, 12) && !idx.is_empty() { let l = idx.len() - 1; idx[l] = *rng.pick(&[usize::MAX, usize::MAX - 1, 1 << 63, (1 << 63) - 1, usize::MAX / 2 + 2]); }
+        let mut claims: Vec<RawLeaf> = idx.iter().map(|i| if *i < n && !rng.chance(1, 8) { leaves[*i] } else { leaves[rng.below(n as u64) as usize] }).collect();
+        if rng.chance(1, 10) { claims.pop(); }
+        let mut good: Vec<usize> = idx.iter().cloned().filter(|i| *i < n).collect();
+        good.sort();
+        good.dedup();
+        let mut values = if good.is_empty() { vec![] } else { batch_path(&leaves, good).0 };
+        for _ in 0..rng.below(3) {
+            match rng.below(3) {
+                0 => if !values.is_empty() { let k = rng.below(values.len() as u64) as usize; values.remove(k); },
+                1 => { let k = rng.below(values.len() as u64 + 1) as usize; values.insert(k, rng.pick(&pool).clone()); },
+                _ => if values.len() >= 2 { let k = rng.below(values.len() as u64 - 1) as usize; values.swap(k, k + 1); },
+            }
+        }
+        // the leaf count is altered only to values that keep the leaf offset (same next power of two: the stated indices keep
+        // their meaning, so S stays applicable) or to huge ones (overflow panics / 63 levels)
+        let np = n.next_power_of_two();
+        let nr = match rng.below(8) { 0 | 1 => rng.range(if np == 1 { 0 } else { np as u64 / 2 + 1 }, np as u64) as usize, 2 => *rng.pick(&[1usize << 63, (1 << 63) - 1, (1 << 63) + 1, usize::MAX, 1 << 62, (1 << 62) + 1]), _ => n };
+        run_verify(&mut sink, "multi-mutation", &leaves, &Case { root, nr, claims, values, idx });
+    }
     sink.finish();
 }
 
